@@ -10,6 +10,8 @@ import (
 	"strings"
 	"testing"
 	"testing/synctest"
+
+	"verif/sim"
 )
 
 // TestSim runs exactly one simulated run: world VERIF_WORLD, seed VERIF_SEED
@@ -41,11 +43,17 @@ func TestSim(t *testing.T) {
 			replay = []int32{}
 		}
 	}
+	if os.Getenv("VERIF_CLSTACK") != "" {
+		sim.DebugCloseStack = func(id int) { fmt.Fprintf(os.Stderr, "CLOSE %d\n%s\n", id, debug.Stack()) }
+	}
 	synctest.Test(t, func(t *testing.T) {
 		res := runWorld(world, seed, replay)
 		b, _ := json.Marshal(res)
 		fmt.Println("RESULT", string(b))
 		os.Stdout.Sync()
+		if os.Getenv("VERIF_GDUMP") != "" {
+			pprof.Lookup("goroutine").WriteTo(os.Stderr, 2)
+		}
 		if p := os.Getenv("VERIF_MEMPROF"); p != "" {
 			if f, err := os.Create(p); err == nil {
 				pprof.Lookup("allocs").WriteTo(f, 0)
